@@ -19,6 +19,8 @@ use std::collections::BTreeMap;
 use std::panic::{catch_unwind, AssertUnwindSafe};
 
 pub const PROTO_PREFIX: &str = "osmo";
+/// which cargo-feature build of the staking contract (and hence which target chain) is simulated
+pub const MINIWASM: bool = cfg!(feature = "miniwasm");
 pub const SIM_CHANNEL: &str = "channel-0";
 pub const T0: u64 = 1_700_000_000;
 pub const TX_INDEX: u32 = 3;
@@ -472,6 +474,11 @@ impl World {
 
     fn dispatch_any(&mut self, type_url: &str, value: &[u8], out: &mut TxOut) -> Result<Option<Vec<u8>>, String> {
         let me = contract_addr();
+        // the target chain of this build has exactly one token-factory module
+        let foreign_tf = if MINIWASM { type_url.starts_with("/osmosis.tokenfactory.") } else { type_url.starts_with("/miniwasm.tokenfactory.") };
+        if foreign_tf {
+            return Err(format!("no handler registered for {type_url} on this chain"));
+        }
         let f = wire::parse(value).ok_or_else(|| format!("undecodable protobuf for {type_url}"))?;
         match type_url {
             "/cosmos.bank.v1beta1.MsgSend" => {
